@@ -189,7 +189,14 @@ def _helper(R, rng, ctx):
     for ci in range(CASES_PER_HELPER[tier]):
         m = rng.choice(MS)
         k = rng.choice(KS)
-        if rng.random() < 0.5:
+        if ci % 50 == 7:
+            # an outlier so gross that the normalised innovation overflows a double: +inf exceeds every
+            # threshold, the reading is discarded
+            y = np.zeros((m, 1))
+            y[rng.randrange(m), 0] = rng.choice([1.0, -1.0]) * 10.0 ** rng.choice([155, 160, 200])
+            Si = np.diag([_dyadic(rng) for _ in range(m)])
+            pl, cls = "overflow", "exact"
+        elif rng.random() < 0.5:
             pl, y, Si = exact_case(rng, m, k)
             cls = "exact"
         else:
@@ -240,7 +247,12 @@ def _helper(R, rng, ctx):
             continue
         R.stats.inc("python_decisions")
         nis = O.exact_nis(y, Si)
-        if cls == "exact":
+        if pl == "overflow":
+            thr = O.threshold_fl(k, m)
+            want = True
+            decided = True
+            R.stats.inc("overflowing_nis_cases_decided")
+        elif cls == "exact":
             thr = O.threshold_fl(k, m)
             want = float(nis) > thr  # nis is exactly representable by construction
             assert float(nis) == nis
@@ -264,12 +276,13 @@ def _helper(R, rng, ctx):
             R.fps.append(fp)
         if not decided:
             continue
+        nis_f = float("inf") if pl == "overflow" else float(nis)
         w = dict(m=m, k=k, placement=pl, cls=cls, y=y.reshape(-1).tolist(), S_inv=Si.tolist(),
-                 nis=float(nis), threshold=O.threshold_fl(k, m), expected=want)
+                 nis=nis_f, threshold=O.threshold_fl(k, m), expected=want)
         if py_dec != want:
-            R.add([K.V("decision:python", f"remove_innovation decided {py_dec}, rule says {want} (m={m}, k={k}, {cls}/{pl}, NIS={float(nis)!r}, thr={O.threshold_fl(k, m)!r})", **w)])
+            R.add([K.V("decision:python", f"remove_innovation decided {py_dec}, rule says {want} (m={m}, k={k}, {cls}/{pl}, NIS={nis_f!r}, thr={O.threshold_fl(k, m)!r})", **w)])
         if cpp_dec != want:
-            R.add([K.V("decision:cpp-helper", f"removeInnovation<{m}> decided {cpp_dec}, rule says {want} (k={k}, {cls}/{pl}, NIS={float(nis)!r}, thr={O.threshold_fl(k, m)!r})", **w)])
+            R.add([K.V("decision:cpp-helper", f"removeInnovation<{m}> decided {cpp_dec}, rule says {want} (k={k}, {cls}/{pl}, NIS={nis_f!r}, thr={O.threshold_fl(k, m)!r})", **w)])
         if py_dec != cpp_dec:
             R.add([K.V("decision:python-vs-cpp", f"Python {py_dec} vs C++ helper {cpp_dec} on identical inputs (m={m}, k={k}, {cls}/{pl})", **w)])
         if not R.samples and cls == "exact" and pl == "at" and m >= 2:
